@@ -203,6 +203,8 @@ def rich_world(seed, n_chroms=6, genes_per_chrom=3, groups=3, multimappers=True,
         r.tags = [("RG", group_of.setdefault(r.name, "g%d" % (i % groups)))]
         r.file_idx = i % 2
         if eqx_every and i % eqx_every == 3 and not (r.flag & 4):
+            if i % (2 * eqx_every) == 3:
+                w.add_mismatches(r)      # every second of them with mismatching bases inside its blocks (X runs in the middle of a block)
             w.to_eqx(r)          # =/X operations instead of M (minimap2 --eqx, pbmm2)
     return w
 
